@@ -3,6 +3,7 @@
    PolyMode  "all"   every node picks among ALL polynomial vectors of the field (the algebra)
              "most"  all nodes but the last pick among all, the last among 2
              "few"   every node picks among 2 polynomial vectors (used with free delivery order)
+             "one"   every node has one polynomial vector (quick tier / controls about the order of deliveries)
    OrderMode "free"  every interleaving of starts, deliveries (incl. re-deliveries) and node steps: a node may be
                      arbitrarily slow, messages wait in its board
              "eager" every interleaving of starts and deliveries; a node that can take a step takes it first (a message
@@ -17,7 +18,8 @@ VARIABLE dups
 mcvars == <<vars, dups>>
 MCInit == /\ \E t \in MCTs, nv \in MCVs : t <= MCN /\ InitWith(MCN, t, nv, MCP)
           /\ dups = 0
-Few(i) == {[v \in Vals |-> [k \in 1..LibThreshold |-> Mod(i + 2 * v + a * k * k + (a - 1) * i * k)]] : a \in {1, 2}}
+Few(i) == {[v \in Vals |-> [k \in 1..LibThreshold |-> Mod(i + 2 * v + a * k * k + (a - 1) * i * k)]] :
+             a \in IF PolyMode = "one" THEN {1} ELSE {1, 2}}
 Polys(i) == IF PolyMode = "all" \/ (PolyMode = "most" /\ i < par.n) THEN [Vals -> [1..LibThreshold -> Zp]] ELSE Few(i)
 Idle == {i \in Nodes : phase[i] = "idle"}
 Min(S) == CHOOSE m \in S : \A o \in S : m <= o
